@@ -252,6 +252,30 @@ Theorem c19_eff_transfer_lists : forall ops, Forall op_ok ops ->
   WF cfg_structs (TSlice (TNamed "v2.Cluster")) (VRef 0 (map (fun kv => ("", snd kv)) (e_clusters st))) /\
   Forall (fun kv => snd kv = VStr "") (e_rpaths st).
 Proof. exact transfer_lists_wf. Qed.
+(* SetHosts stores its argument.  For EVERY history of setter calls with well-formed arguments, every cluster name and
+   EVERY host list (no premise on it): if the cluster is known, afterwards the effective config holds it with exactly
+   that host list - every host, every field (address, hostname, weight, tls_disable, the labels in MetaData), in that
+   order - while every other field of the cluster, every other cluster and every other part of the state are as
+   before; if the cluster is not known nothing changes.  In particular an update that changes only the labels is not
+   dropped.  The model step is the one the source has: src_sethosts_stores_argument is read from SetHosts by go/ast
+   (known cluster: assign, store, trigger the dump - no other branch, no early return) and the model is run against the
+   real cluster manager's host updates on every run (eff-hosts-variation histories). *)
+Theorem c19_eff_sethosts_exact : forall ops n hosts, Forall op_ok ops ->
+  let st := eff_run ops eff_init in
+  let st' := eff_step st (OSetHosts n hosts) in
+  match aget n (e_clusters st) with
+  | Some c => exists c', aget n (e_clusters st') = Some c' /\ iget [i_c_hosts] c' = Some hosts /\
+                         (forall j, j <> i_c_hosts -> iget [j] c' = iget [j] c)
+  | None => st' = st
+  end /\
+  (forall m, m <> n -> aget m (e_clusters st') = aget m (e_clusters st)) /\
+  e_mosn st' = e_mosn st /\ e_listeners st' = e_listeners st /\ e_routers st' = e_routers st /\
+  e_extends st' = e_extends st /\ e_cpath st' = e_cpath st /\ e_rpaths st' = e_rpaths st.
+Proof. exact eff_sethosts_exact. Qed.
+Print Assumptions c19_eff_sethosts_exact.
+Theorem c19_source_sethosts : src_sethosts_stores_argument = true.
+Proof. exact (eq_refl true). Qed.
+
 (* dump / load of the persisted form round-trips whenever the reassembled v2.MOSNConfig is well-formed (instance of
    c19_roundtrip_full; the name-keyed lists come out sorted by name in the model - in Go in map order, which is what
    "up to the order of the name-keyed lists" refers to) *)
